@@ -6,24 +6,41 @@ from vf import dromodel as D
 
 
 def row_check(case, x, y0, Y, tolscale):
-    """no-E constraints must hold for every scenario and every realisation of its support"""
+    """no-E constraints must hold for every scenario and every realisation of the support declared by the constraint's ambiguity
+    set; E constraints must hold under every distribution of that set (attacked by the moment LP over support atoms)"""
     S, ny = case['S'], case['ny']
     active = 0
     for ri, row in enumerate(case['cons']):
+        view = D.row_view(case, row)
         sg = 1.0 if row['sense'] == 'le' else -1.0
+        if row.get('E'):
+            dirs = [(np.array(r['c'], dtype=float), r['b']) for r in D.row_pieces(row)]
+            adv = D.adversary(view, x, y0, Y, dirs, lambda s, w: D.row_integrand(row, x, y0[s], Y[s], w), sg)
+            if adv is None:
+                continue
+            wval, wts, p = adv[:3]
+            scale = 1 + max(abs(r['c0']) for r in D.row_pieces(row))
+            if sg * wval > 10 * tolscale * scale:
+                return 'E:%s' % ('pw' if row.get('alt') else 'affine'), (
+                    'expectation constraint %d (%s 0, ambiguity set %d) has expected value %.6g under a distribution of its '
+                    'ambiguity set (p=%s)' % (ri, '<=' if sg > 0 else '>=', row.get('amb', 0), wval, np.round(p, 6).tolist())), active
+            if abs(wval) <= 1e-5 * scale:
+                active += 1
+            continue
         for s in range(S):
             k = float(np.array(row['a0']) @ x + (np.array(row['b']) @ y0[s] if ny else 0.0) + row['c0'])
             g = np.array(row['c'], dtype=float) + (Y[s].T @ np.array(row['b']) if ny else 0.0)
-            worst = D.support_max(case['supports'][s], sg * g)
+            worst = D.support_max(view['supports'][s], sg * g)
             if worst is None:
                 continue                 # the independent maximiser failed: no verdict for this row/scenario
             resid = sg * k + worst
             scale = 1 + abs(k) + float(np.abs(g).sum())
             if resid > tolscale * scale:
-                return 'constraint %d (%s) violated by %.4g in scenario %d at its worst realisation' % (ri, row['sense'], resid, s), active
+                return 'row', 'constraint %d (%s, ambiguity set %d) violated by %.4g in scenario %d at its worst realisation' % (
+                    ri, row['sense'], row.get('amb', 0), resid, s), active
             if abs(resid) <= 1e-5 * scale and np.any(g):
                 active += 1
-    return None, active
+    return None, None, active
 
 
 class C03(Prop):
@@ -32,20 +49,23 @@ class C03(Prop):
             'Wasserstein-style auxiliary), per-scenario supports (point, box, inf-norm, 1-norm, polytope, ellipsoid, lifted norm '
             'ball), 0-2 expectation sets on random events (box / equality / 1-norm / half-space on E(z), E(u)), probability sets '
             '(fixed, box, 1-norm, 2-norm, KL, free), static x and event-wise y (partition built by a random sequence of adapt() '
-            'calls) with optional affine adaptation on a mask, minsup/maxinf of E(affine) or E(maxof/minof pieces), robust rows '
-            'without E. Oracle: adversarial distribution by the primal moment LP over support atoms (vertices for polytopes, '
+            'calls) with optional affine adaptation on a mask, minsup/maxinf of E(affine) or E(maxof/minof pieces), or min/max of a '
+            'deterministic expression (then every constraint names its set), robust rows without E, expectation rows E(affine) <= 0 / '
+            'E(maxof(..)) <= 0 / E(minof(..)) >= 0, an optional second ambiguity set of the same model used through constr.forall(set2), '
+            'constr.forall(set) spelled out, and constr.forall(<support constraints>). Oracle: adversarial distribution by the primal moment LP over support atoms (vertices for polytopes, '
             'extreme points in the piece directions + boundary samples for balls; p from the LP or from verified candidates for '
             'KL/2-norm sets); every witness distribution is re-checked against the declared set by direct arithmetic; the expected '
             'objective under it, computed by NumPy from get()/get(z), must not be worse than model.get(); rows without E are '
-            'tested at the worst realisation of every scenario support. Non-trivial = adversarial expectation differs from the '
+            'tested at the worst realisation of every scenario support of the set the row names; E rows are attacked with the same moment LP over '
+            'their own ambiguity set. Non-trivial = adversarial expectation differs from the '
             'centre-distribution value by > 1e-4 or a robust row is active; distinct by IR hash.')
     assumptions = ['tolerance 1e-6 (LP) / 5e-5 (conic) relative', 'ellipsoidal supports and KL/2-norm probability sets are attacked with finitely many atoms / candidate p (sound, weaker)']
 
     def examples(self, tier):
-        return 1200 if tier == 'quick' else 30000
+        return 3000 if tier == 'quick' else 60000
 
     def strategy(self, tier):
-        return D.dro_case(polyhedral=False, allow_kl=True)
+        return D.dro_case(polyhedral=False, allow_kl=True, econs=True, amb2_ok=True, det_obj=True)
 
     def check(self, case):
         labels = ['S:%d' % case['S'], 'prob:' + case['prob']['t'], 'obj:' + case['obj']['kind'], 'pieces:%d' % len(case['obj']['pieces']),
@@ -57,6 +77,15 @@ class C03(Prop):
                 labels.append('affine_adapt')
         if case['nu']:
             labels.append('lifted')
+        if case.get('amb2'):
+            labels.append('amb2')
+        for r in case['cons']:
+            if r.get('E'):
+                labels.append('Erow:pw' if r.get('alt') else 'Erow:affine')
+            if r.get('amb'):
+                labels.append('forall_amb2')
+            if r.get('fsupp'):
+                labels.append('forall_support')
         m, h = D.build(case)
         solver, kind = D.pick_solver(case)
         val = D.solve(m, solver)
@@ -64,9 +93,9 @@ class C03(Prop):
             return Outcome.skip('not_optimal', labels)
         x, y0, Y, raw = D.read_solution(case, h)
         tolscale = 1e-6 if kind == 'lp' else 5e-5
-        msg, active = row_check(case, x, y0, Y, tolscale)
-        if msg:
-            return Outcome.fail('row', msg, labels)
+        tag, msg, active = row_check(case, x, y0, Y, tolscale)
+        if tag:
+            return Outcome.fail(tag, msg, labels)
         # adversarial distribution
         S = case['S']
         dirs = [np.array(pc['f'], dtype=float) for pc in case['obj']['pieces']]
@@ -80,7 +109,14 @@ class C03(Prop):
             atoms.append(a)
             exact = exact and ex
         vals = [[D.integrand(case, x, y0[s], Y[s], w) for w in atoms[s]] for s in range(S)]
-        sign = 1.0 if case['obj']['kind'] == 'minsup' else -1.0
+        sign = 1.0 if case['obj']['kind'] in ('minsup', 'min') else -1.0
+        if case['obj']['kind'] in ('min', 'max'):
+            # deterministic objective of a dro model: model.get() bounds the expression in every scenario
+            sv = [D.integrand(case, x, y0[s], Y[s], atoms[s][0]) for s in range(S)]
+            sb = int(np.argmax(sign * np.array(sv)))
+            if sign * (sv[sb] - val) > tolscale * 10 * (1 + abs(val)):
+                return Outcome.fail('objective:%s' % case['obj']['kind'], 'model.get()=%.9g but the objective expression is %.9g in scenario %d' % (val, sv[sb], sb), labels)
+            return Outcome.ok(active > 0 or len(set(np.round(sv, 6))) > 1, labels)
         results = []
         if case['prob']['t'] in ('kl', 'l2'):
             gains = [max(v) if sign > 0 else -min(v) for v in vals]
